@@ -348,7 +348,12 @@ func genInput(c *common.Ctx) Input {
 	}
 	in.PluginCallError = chance(c, 0.07)
 	// extended attributes: none / one / two, mostly critical
-	keys := []string{"com.example.alpha", "com.example.beta"}
+	// the second key shares the prefix of the two plugin headers without being one of them: it is an
+	// ordinary extended attribute and must be treated like any other
+	keys := []string{"com.example.alpha", "io.cncf.notary.verificationPluginConfigDigest"}
+	if chance(c, 0.5) {
+		keys[0], keys[1] = keys[1], keys[0]
+	}
 	n := pick(c, []int{0, 0, 1, 1, 2})
 	for k := 0; k < n; k++ {
 		in.ExtAttrs = append(in.ExtAttrs, ExtAttr{Key: keys[k], Critical: chance(c, 0.85)})
